@@ -102,6 +102,43 @@ def run_csvzero(pa, case, d):
         return probs, None
 
 
+def csvrows_cases(tier):
+    """A CSV file is a bag of rows: every permutation of the rows of small files (annotators interleaved, a
+    duplicated row) must load as the same continuum."""
+    out = []
+    files = [
+        [["a", "x", 0, 1], ["a", "y", 2, 3.5], ["b", "x", 0.5, 1], ["b", "z", 4, 5], ["a", "x", 6, 7]],
+        [["b", "k", 0, 2], ["a", "k", 0, 2], ["b", "k", 0, 2], ["c", "", 1, 2]],
+    ]
+    for rows in files:
+        perms = list(itertools.permutations(range(len(rows))))
+        if tier == "quick":
+            perms = perms[::3]
+        for perm in perms:
+            out.append({"fmt": "csvrows", "rows": [rows[i] for i in perm], "delim": ","})
+    out.append({"fmt": "csvrows", "rows": [files[0][i] for i in (0, 2, 1, 3, 4)], "delim": ";"})
+    return out
+
+
+def run_csvrows(pa, case, d):
+    import csv
+    path = os.path.join(d, "rows.csv")
+    with open(path, "w", newline="") as f:
+        csv.writer(f, delimiter=case["delim"]).writerows(case["rows"])
+    c = pa.Continuum.from_csv(path, delimiter=case["delim"])
+    want = {}
+    for a, lab, s, e in case["rows"]:
+        want.setdefault(a, set()).add((float(s), float(e), lab))
+    got = {a: set((float(u[0]), float(u[1]), u[2]) for u in us) for a, us in continuum_to_spec(c)["annotators"]}
+    probs = []
+    if got != want:
+        probs.append(f"CSV rows {case['rows']} loaded as {continuum_to_spec(c)['annotators']}: not one unit per row "
+                     f"under its annotator")
+    elif sorted(c.categories) != sorted({r[1] for r in case["rows"]}):
+        probs.append(f"categories {list(c.categories)} after loading rows with labels {sorted({r[1] for r in case['rows']})}")
+    return probs, continuum_to_spec(c)
+
+
 def rttm_cases(tier):
     out = []
     turns_menu = [
@@ -213,11 +250,11 @@ def run_tiers(pa, case, d):
     return probs, spec
 
 
-RUNNERS = {"csv": run_csv, "csvzero": run_csvzero, "rttm": run_rttm, "textgrid": run_tiers, "elan": run_tiers}
+RUNNERS = {"csv": run_csv, "csvrows": run_csvrows, "csvzero": run_csvzero, "rttm": run_rttm, "textgrid": run_tiers, "elan": run_tiers}
 
 
 def all_cases(tier):
-    return csv_cases(tier) + zero_cases() + rttm_cases(tier) + tier_cases(tier)
+    return csv_cases(tier) + csvrows_cases(tier) + zero_cases() + rttm_cases(tier) + tier_cases(tier)
 
 
 def shards(tier, seed):
